@@ -23,6 +23,9 @@
 //     fallthrough), return (also naked), :=, =, op=, ++, --, var, assignments
 //     to fields of the receiver or of local struct values; statements after a
 //     branching statement are duplicated into both branches;
+//   - `for range n { f(…); _ = g(…) }` over an integer n whose body consists
+//     only of calls with discarded results (trace mode): the body's trace
+//     entries are appended `n` times (`List.replicate n.toNat [...]`);
 //   - a `panic(…)` statement (outside loops) makes the result `none`, like
 //     every other run-time panic;
 //   - expressions: literals, constants (folded with go/types, so imported
@@ -1212,6 +1215,39 @@ func (c *fctx) ret(vals []string) string {
 	return "«ret»" + r
 }
 
+// countedLoop translates `for range n { f(…); _ = g(…) }` over an integer n
+// whose body consists only of opaque calls with discarded results: the body's
+// trace entries are appended n times.
+func (c *fctx) countedLoop(x *ast.RangeStmt, rest []ast.Stmt) string {
+	var entries []string
+	for _, b := range x.Body.List {
+		var call *ast.CallExpr
+		switch bs := b.(type) {
+		case *ast.ExprStmt:
+			call, _ = bs.X.(*ast.CallExpr)
+		case *ast.AssignStmt:
+			blank := len(bs.Rhs) == 1
+			for _, l := range bs.Lhs {
+				if id, ok := l.(*ast.Ident); !ok || id.Name != "_" {
+					blank = false
+				}
+			}
+			if blank {
+				call, _ = bs.Rhs[0].(*ast.CallExpr)
+			}
+		}
+		if call == nil {
+			fail("statement %s in a counted loop", c.show(b))
+		}
+		if !c.matches(c.spec.Ignore, call) {
+			entries = append(entries, c.traceEntry(call))
+		}
+	}
+	return c.withEx(c.expr(x.X), func(code string) string {
+		return fmt.Sprintf("let tr := tr ++ (List.replicate (Int.toNat %s) [%s]).flatten\n", code, strings.Join(entries, ", ")) + c.stmts(rest)
+	})
+}
+
 // loopCtx is the innermost enclosing range loop: its carried variables.
 type loopCtx struct {
 	state []string
@@ -1407,6 +1443,9 @@ func (c *fctx) stmts(list []ast.Stmt) string {
 	case *ast.SwitchStmt:
 		return c.stmts(append(c.desugarSwitch(x), rest...))
 	case *ast.RangeStmt:
+		if x.Key == nil && x.Value == nil && isInt(c.typeOf(x.X)) && c.trace && c.loop == nil {
+			return c.countedLoop(x, rest)
+		}
 		return c.rangeLoop(x, rest)
 	case *ast.BranchStmt:
 		if c.loop != nil && x.Label == nil {
